@@ -53,14 +53,21 @@ def run(R):
         for nm, pat in (('accept', 'StreamExt::next'), ('make-service', 'Service::call'), ('serve_connection', 'serve_connection'), ('poll_ready', 'Service::poll_ready')):
             hits = [bb for bb, t in si.calls(pat=pat) if bb in after and bb != send[0]]
             R.check(not hits, 'C13.R1', 'after-send:no-%s' % nm, site(si, hits[0]) if hits else site(si, send[0]), '%s reachable after the shutdown broadcast: %d site(s)' % (pat, len(hits)))
-        g = si.edge_guards(send[0])
-        R.check(any(('graceful' in show(tm) or (is_call(strip_refs(tm), name='is_some') and 'signal' in show(tm))) and (vals == ['else'] or 0 not in vals) for s, vals, tm in g), 'C13.R1', 'send-on-graceful', site(si, send[0]), 'the broadcast happens only when a signal was supplied (graceful)')
-        gl = si.local_named('graceful')
-        okd = False
-        if gl:
-            ds = si.defs().get(gl[0], [])
-            okd = len(ds) == 1 and ds[0][0] == 'call' and ds[0][2].get('name') == 'is_some' and 'signal' in show(si.origin(ds[0][2]['args'][0]))
-        R.check(okd, 'C13.R1', 'graceful=signal.is_some()', site(si), 'graceful = signal.is_some()')
+        # the test that decides whether there is a shutdown signal at all: `signal.is_some()` (an Option of the caller's future
+        # type), wherever it is kept in between (a local, a field of a private struct, a capture of the drain helper)
+        def graceful_test(body_, tm_):
+            r_ = strip_refs(mirlib.simplify(resolve_env(tonic, body_, tm_, within=[si])))
+            if is_call(r_, name='is_some') and 'Option' in r_[1]:
+                ga_ = r_[4].get('ga') or []
+                return any(re.match(r'^[A-Z]\w?$', g_ or '') for g_ in ga_) or 'signal' in show(r_)
+            return False
+        gsite = None
+        for body_, at_ in ((si, send[0]),) + (((host, host.calls(pat='watch::Sender', name='send')[0][0]),) if host is not si else ()):
+            for s_, vals_, tm_ in body_.edge_guards(at_):
+                if graceful_test(body_, tm_) and (vals_ == ['else'] or 0 not in vals_):
+                    gsite = (body_, s_)
+        R.check(gsite is not None, 'C13.R1', 'send-on-graceful', site(si, send[0]), 'the broadcast happens only when a signal was supplied (graceful)')
+        R.check(gsite is not None, 'C13.R1', 'graceful=signal.is_some()', site(si), 'the flag tested is signal.is_some()')
         acc = si.calls(pat='StreamExt::next')
         R.check(len(acc) == 1 and 'incoming' in show(si.origin(acc[0][1]['args'][0])), 'C13.R1', 'accept-site', site(si), 'incoming.next() sites: %d' % len(acc))
 
@@ -124,11 +131,11 @@ def run(R):
                 # the helper's future is awaited before serve_internal returns
                 ysi = [bb for bb in si.reachable(send[0]) if si.term(bb)['k'] == 'call' and si.term(bb).get('name') == 'poll' and 'Future::poll' in (si.term(bb).get('fn') or '')]
                 R.check(bool(ysi) and all(si.must_pass(send[0], rb, ysi) for rb in si.return_blocks() if rb in si.reachable(send[0])), 'C13.R2', 'every-graceful-path-waits:helper-awaited', site(si, send[0]), 'the drain helper is awaited on every path to the return')
-            sw = [s for s, vals, tm in si.edge_guards(send[0]) if 'graceful' in show(tm) or (is_call(strip_refs(tm), name='is_some') and 'signal' in show(tm))]
-            if sw:
-                other = [t_ for t_, vals in si.switch_edges(sw[-1]).items() if vals == [0]]
-                wait_site = closed[0][0] if host is si else send[0]
-                R.check(bool(other) and wait_site not in si.reachable(other[0], removed={sw[-1]}), 'C13.R2', 'non-graceful-does-not-wait', site(si, sw[-1]), 'without a signal serve returns without awaiting closed()')
+            if gsite is not None:
+                gb_, gs_ = gsite
+                other = [t_ for t_, vals in gb_.switch_edges(gs_).items() if vals == [0]]
+                wait_site = closed[0][0] if gb_ is hb else send[0]
+                R.check(bool(other) and wait_site not in gb_.reachable(other[0], removed={gs_}), 'C13.R2', 'non-graceful-does-not-wait', site(gb_, gs_), 'without a signal serve returns without awaiting closed()')
             tx = hb.origin(closed[0][1]['args'][0])
             stx = hb.origin(hsend[1]['args'][0])
             R.check(from_channel(hb, tx, True) and from_channel(hb, stx, True), 'C13.R2', 'same-channel', site(hb), 'send and closed act on the sender of the channel made in serve_internal')
